@@ -323,6 +323,17 @@ class C17(Check):
                 rec.cls('directed-cases')
                 self.replay(case, rec, count=True)
                 rec.nt(case['history'])
+                if k % 4 == shard['directed'] and a[:2] == b[:2] and a != 'T3':
+                    # both texts define the same module: with two files the later one wins, so the order of the file
+                    # list matters and the cache must not serve [a, b] for [b, a]
+                    case = {'history': [['write', 'f1', a], ['write', 'f2', b],
+                                        ['compile', ['f1', 'f2'], [a, b], codec, ne, None],
+                                        ['compile', ['f2', 'f1'], [b, a], codec, ne, None],
+                                        ['compile', ['f1', 'f2'], [a, b], codec, ne, None]], 'pool': POOL}
+                    rec.cases += 1
+                    rec.cls('directed-cases')
+                    self.replay(case, rec, count=True)
+                    rec.nt(case['history'])
         finally:
             shutil.rmtree(base, ignore_errors=True)
 
